@@ -27,7 +27,11 @@ def sse_encode(msgs, enc):
     """msgs: list of JSON texts; returns the event-stream text in the given (conformant) encoding"""
     out = []
     for k, m in enumerate(msgs):
-        if enc == "noEvent":
+        if enc == "pingFirst":
+            # an event of another type first; the message events that follow carry no event field,
+            # so their type is the default ("message") again
+            ev = ("event: ping\ndata: {}\n\n" if k == 0 else "") + "data: %s\n\n" % m
+        elif enc == "noEvent":
             ev = "data: %s\n\n" % m
         elif enc == "noSpace":
             ev = "event:message\ndata:%s\n\n" % m
